@@ -100,7 +100,7 @@ def report(chk: Check, case: dict, prop: str, origin: str):
     else:
         chk.violation(
             f"correspondence broken (the property's own oracle still holds on this case): step {v2[1]} {v2[2]}",
-            dict(replay, broken="correspondence Model/Tx.lean + Model/TxCtx.lean <-> cashews/backends/transaction.py + cashews/wrapper/transaction.py"),
+            dict(replay, broken="correspondence Model/Tx.lean + Model/TxMatch.lean + Model/TxCtx.lean <-> cashews/backends/transaction.py + cashews/wrapper/transaction.py"),
             signature=None, no_input=True)
 
 
@@ -126,7 +126,8 @@ def exhaustive_cases():
 
 TRUSTED = [
     "Lean 4.33.0 kernel; axioms of every theorem audited to be within {propext, Classical.choice, Quot.sound}",
-    "hand-written models lean/CashewsVerif/Model/Tx.lean (cashews/backends/transaction.py) and Model/TxCtx.lean "
+    "hand-written models lean/CashewsVerif/Model/Tx.lean + Model/TxMatch.lean (cashews/backends/transaction.py; the pattern commands over "
+    "Model/Glob.lean, which C13 ties to Memory.scan / delete_match / get_match) and Model/TxCtx.lean "
     "(cashews/wrapper/transaction.py), tied to the code by this run's four-way history correspondence",
     "Model/Mem.lean for overlay and backend (C01 ties it to cashews/backends/memory.py)",
     "harness: virtual clock (harness/vtime.py), canonicalisation, the raw non-touching observer (harness/txhist.py)",
@@ -148,6 +149,10 @@ def run_prop(chk: Check, prop: str) -> int:
     for c in txhist.default_cases(None if chk.thorough else chk.rng):
         cases.append(("caller-default", c))
         ndef += 1
+    npat = 0
+    for c in txhist.pattern_cases(None if chk.thorough else chk.rng, 3000):
+        cases.append(("delete-match", c))
+        npat += 1
     for i in range(n):
         cases.append((f"gen:{i}", txhist.gen_case(chk.rng, i)))
     nexh = 0
@@ -202,6 +207,18 @@ def run_prop(chk: Check, prop: str) -> int:
     if proof is not None:
         chk.proof_broken(proof, found > 0)
     chk.coverage.update({
+        "delete_match_cases": npat,
+        "delete_match_rule": "pattern commands inside a transaction are commands of the histories like any other (delete_match 7%, scan and get_match 2.5% "
+                             "each of the generated commands, half of the patterns repeating one used earlier in the same program; patterns over the names "
+                             "ka / kb1 / kb2 selecting all keys, two, one or none, none of them reaching the reserved ':' lock keys); plus the enumerated "
+                             "sub-space: 8 initial stores (each key absent / present) x [one earlier write or none: set, set with ttl, incr, delete of ka, "
+                             "delete of kb1, expire, set only-if-absent, set only-if-present, delete_many, set_many] x delete_match(p1) x [one write in "
+                             "between or none] x [delete_match(p2) or none], p1, p2 in {k*, kb*, ka, kb1, x* (nothing)} - so delete_match meets keys that are "
+                             "only pending, only in the store, both, pending-deleted or absent, before and after writes of matching and non-matching keys, "
+                             "repeated with the identical and with a different pattern - followed by get_many of all keys, scan, get_match, exists and a "
+                             "conditional set from inside, the end of the block and a scan from outside: 29040 points; thorough tier: all of them x 3 modes "
+                             "(exhaustive over this space), every 7th also left by an exception; quick tier: 3000 points drawn from VERIF_SEED, one mode each, "
+                             "15% left by an exception / a cancellation",
         "caller_default_cases": ndef,
         "caller_default_rule": "reads with a caller-supplied default (`get(k, default=d)`, `get_many(..., default=d)`, d a value of the alphabet "
                                "- None, a small int, the identical token object - instead of the harness's private sentinel): about half of the "
@@ -252,7 +269,8 @@ def run_prop(chk: Check, prop: str) -> int:
                        "exception that comes out of the block must be the one that went in (a swallowed or replaced one is reported)",
         "trusted_base": TRUSTED,
         "partial": "one task and one Memory backend; a context object shared between tasks is not exercised; non-dyadic TTLs, more than 3 keys, blocks longer than 14 commands, the overlay's "
-                   "own capacity of 1000 entries, delete_match/scan/get_match inside a transaction (C13) are not exercised",
+                   "own capacity of 1000 entries, patterns that reach the reserved ':'-prefixed lock keys (excluded by the properties' proviso), pattern "
+                   "metacharacters other than '*' (C13's subject) are not exercised",
     })
     chk.assumptions.extend(TRUSTED)
     return chk.finish(proof)
